@@ -359,6 +359,56 @@ def agf(items, fix_len=True):
     return b
 
 
+SPECIAL = [b"\x00", b"\x7f", b"\x80", b"\xff", b"\xc3\x28", b"\xe2\x82", b"\xf0\x28\x8c\xbc", b"\xed\xa0\x80", b"\xc0\xaf",
+           b"urn:nfc:sn:\xff", b"urn:nfc:sn:sn\x00ep", bytes(range(0x78, 0x88)), b"%s{0}\n\r", b"\xfe\xff\x00h"]
+
+
+def octet_values(thorough):
+    if thorough:
+        return list(range(256))
+    return sorted(set(list(range(0, 0x21)) + list(range(0x7d, 0x83)) + list(range(0xbf, 0xc4)) + [0xdf, 0xe0, 0xe1, 0xef, 0xf0, 0xf4, 0xf5, 0xf8, 0xfe, 0xff]))
+
+
+def payload_forms(p):
+    """the payload as service data, behind a sequence octet, and as the value of every TLV type"""
+    return [p, b"\x00" + p] + [bytes([x, len(p)]) + p for x in range(0, 13)] + [bytes([8, len(p) + 1, 7]) + p, bytes([9, 2, 7]) + p[:1]]
+
+
+def nasty_pdus(thorough, world=True):
+    """PDUs of EVERY type 0..15 carrying every octet class (0x00, 0x7f, 0x80, 0xff, invalid UTF-8 ..) as
+    payload / service name / parameter value; yields bare octets (the caller also wraps them in aggregates)"""
+    dsaps = {0: (0,), 1: (0,), 2: (0,), 9: (1,), 10: (0,), 4: (1, 33, 4), 3: (36, 43, 16), 12: (36, 37), 6: (35, 36), 7: (35, 38, 36)}
+    for t in range(16):
+        ds = dsaps.get(t, (36, 33))
+        ss = {0: 0, 1: 0, 2: 0, 9: 1, 10: 0}.get(t, 32)
+        for p in SPECIAL:
+            for f in payload_forms(p):
+                for d in (ds if world else ds[:1]):
+                    yield hdr(d, t, ss) + f
+        for v in octet_values(thorough):
+            p = bytes([v])
+            for f in (p, bytes([6, 1]) + p, bytes([8, 2, 7]) + p, b"\x00" + p, bytes([6, 3, 0x61]) + p + b"\x62"):
+                yield hdr(ds[0], t, ss) + f
+
+
+def format_oracle(ck, pdu, q, octets, where):
+    """formatting a decoded PDU never raises: str()/repr()/format of the PDU and of every aggregated PDU"""
+    try:
+        str(q)
+        repr(q)
+        "{0} {0!r}".format(q)
+        "%s %r" % (q, q)
+        if q.name == "AGF":
+            for x in q:
+                str(x)
+                repr(x)
+    except Exception as e:  # noqa
+        ck.fail("pdu-format-%s" % exc_name(e), "str() of the PDU decoded from %s raises %s" % (octets.hex()[:80], exc_name(e)),
+                {"position": where, "octets": octets.hex(), "pdu_type": q.name})
+        return False
+    return True
+
+
 def pdu_tails(rng, t):
     """information fields aimed at the PDU type"""
     if t == 12:
@@ -404,6 +454,29 @@ def part_llc(cx):
                 items.append(hdr(d, t, rng.choice([32, 41, 33])) + rng.choice(pdu_tails(rng, t)))
             cases.append(agf(items))
             cases.append(mutate(rng, agf(items), (2, 3)))
+    # every PDU type with every octet class as payload / name / parameter value, bare and aggregated
+    for b in nasty_pdus(ck.thorough):
+        cases.append(b)
+        if b[:2] != b"\x00\x80":
+            cases.append(agf([b]))
+            if rng.random() < 0.15:
+                cases.append(agf([b"\x00\x00", b, hdr(36, 13, 32) + b"\x00"]))
+    # formatting sweep without a controller: all 256 octet values in every position, all types
+    nfmt = 0
+    for b in nasty_pdus(True, world=False):
+        for o in (b, agf([b])):
+            try:
+                q = pdu.decode(o)
+            except pdu.DecodeError:
+                continue
+            except Exception as e:  # noqa
+                ck.fail("pdu-decode-%s" % exc_name(e), "pdu.decode(%s) raised %s" % (o.hex()[:80], exc_name(e)), {"position": "pdu.decode", "octets": o.hex()})
+                continue
+            nfmt += 1
+            format_oracle(ck, pdu, q, o, "str(pdu) after pdu.decode")
+            ck.case(("fmt", o), True, "pdu-format:" + q.name)
+    ck.notes.append("formatting oracle: str/repr/format of %d decoded PDUs of all types with every octet value in payload, service name and "
+                    "parameter positions, bare and aggregated" % nfmt)
     cases.append(agf([agf([hdr(36, 3, 32)])]))
     nest = hdr(36, 3, 32)
     for _ in range(520):
@@ -426,6 +499,7 @@ def part_llc(cx):
                 # ---- decoder: result and exception class, model vs code
                 try:
                     q = pdu.decode(b)
+                    format_oracle(ck, pdu, q, b, "str(pdu) after pdu.decode")
                     dreal = "ok " + pdu_ref.text(pdu_ref.from_obj(pdu, q))
                     dst = q.dsap if q.name != "AGF" else (q.first.dsap if q.count else 0)
                     same = q.name != "AGF" or all(x.dsap == dst for x in q)
@@ -452,6 +526,12 @@ def part_llc(cx):
                 try:
                     r = w.inject(b)
                     bad = w.drain_users()
+                    for exc, where, msg in P.PROBE.take():
+                        ck.fail("log-format-%s" % exc, "dispatch of %s: the log record of %s (%r) cannot be formatted: %s" % (b.hex()[:60], where, msg, exc),
+                                {"position": "formatting of a log record during dispatch", "octets": b.hex(), "where": where})
+                    for name, exc in w.format_all():
+                        ck.fail("llc-format-%s" % exc, "after dispatch of %s str(%s) raises %s" % (b.hex()[:60], name, exc),
+                                {"position": "str() of controller/socket/queued PDU", "octets": b.hex(), "object": name})
                     real = snap.get("r") if spec else None
                 except L.Hang:
                     r, bad, real = "hang", [], "hang"
@@ -553,6 +633,12 @@ def part_user(cx):
         for name, fn, me, peer in ops:
             pl = pool(me, peer)
             scripts = [[p] for p in pl] + [[]]
+            for t in (3, 4, 6, 7, 9, 11, 12):
+                for pay in SPECIAL[:9]:
+                    for f in (pay, bytes([6, len(pay)]) + pay, b"\x00" + pay):
+                        b = hdr(1 if t == 9 else me, t, 1 if t == 9 else peer) + f
+                        scripts.append([b])
+                        scripts.append([agf([b])])
             # every ordered pair of PDU types in one aggregate and in two consecutive frames
             rep = [hdr(me, t, peer) + pdu_tails(rng, t)[1 if t in (7, 8, 12, 13, 14) else 0] for t in (3, 4, 5, 6, 7, 8, 12, 13)]
             for a in rep:
@@ -653,6 +739,27 @@ def part_flow(cx):
         pool = [SYMM, b"\x01\x40", b"", b"\x00", b"\x90\xe0", b"\x84\xfc", agf([b"\x90\xe0", b"\x93\x20\x00ab"]), b"\x00\x80\x00\x09\x00", "T", "X", "P", "B", "N",
                 hdr(36, 12, 32) + b"\x00data", hdr(36, 5, 32), hdr(33, 4, 60), hdr(1, 4, 60) + b"\x06\x0furn:nfc:sn:snep", hdr(1, 9, 1) + b"\x08\x03\x01ab",
                 b"\x05\x20", b"\x00\x40\x01\x01"]
+        nasty = [b for b in nasty_pdus(False, world=False)]
+        pool = pool + [agf([x]) for x in rng.sample(nasty, 40)] + rng.sample(nasty, 20)
+        # every PDU type with a non-ascii / invalid UTF-8 payload, bare and aggregated, as the one frame of a run
+        singles = []
+        for t in range(16):
+            for pay in (b"\xff", b"\xc3\x28", b"\x00"):
+                for f in (pay, bytes([6, len(pay)]) + pay, bytes([8, len(pay) + 1, 7]) + pay, bytes([10, len(pay)]) + pay):
+                    d, s_ = {0: (0, 0), 1: (0, 0), 2: (0, 0), 9: (1, 1), 10: (0, 0), 4: (1, 32)}.get(t, (36, 32))
+                    singles.append(hdr(d, t, s_) + f)
+        for b in singles:
+            for script in ([SYMM, b, SYMM], [SYMM, agf([b]), SYMM]):
+                for ini in (True, False):
+                    r, c, mac = L.run_loop(ini, script, with_sockets=True, terminate_after=4)
+                    replay = {"position": "llc.run_as_%s" % ("initiator" if ini else "target"), "llc_octets_per_exchange": [x.hex() for x in script]}
+                    if r == "hang":
+                        ck.fail("llc-linkloop-hang", "run loop blocked for ever", replay)
+                    elif r != "ok":
+                        ck.fail("llc-run-%s" % r.replace("exc ", ""), "run loop ended with %s" % r, replay)
+                    elif not (c.link.SHUTDOWN and mac.deactivated == 1 and not any(c.sap)):
+                        ck.fail("llc-run-not-terminated", "run loop returned but link=%s" % c.link, replay)
+                    ck.case(("run1", ini, tuple(script)), True, "run-loop-octet-classes:" + r)
         for i in range(600 if ck.thorough else 120):
             ini = rng.random() < 0.5
             script = [rng.choice(pool) if rng.random() < 0.8 else rb(rng, rng.randrange(0, 6)) for _ in range(rng.randrange(0, 8))]
@@ -675,6 +782,7 @@ def part_flow(cx):
         def dep(brty, req, pni, data):
             return fr(brty, bytes([0xD4 if req else 0xD5, 6 if req else 7, pni & 3]) + data)
         llc_pool = [SYMM, SYMM, b"\x01\x40", b"\x90\xe0", b"\x00", hdr(33, 4, 60), hdr(36, 12, 32) + b"\x00d", agf([SYMM, hdr(4, 4, 33)])]
+        llc_pool = llc_pool + [agf([x]) for x in rng.sample(nasty, 12)] + rng.sample(nasty, 6) + [agf([hdr(1, 4, 32) + b"\x06\x01\xff"]), hdr(1, 4, 32) + b"\x06\x01\xff"]
         for i in range(500 if ck.thorough else 100):
             brty = rng.choice(["106A", "212F"])
             mode = rng.choice(["i-passive", "i-passive", "i-active", "t", "t"])
@@ -959,16 +1067,20 @@ def run(ck):
     if not all(cx.V.values()):
         ck.notes.append("REGRESSION: repairs missing in the tree: %s - the theorems are about the repaired code; the ties use the as-found "
                         "variant for these and the oracle reports the failing octets" % ", ".join(k for k, v in sorted(cx.V.items()) if not v))
+    def log_errors(part):
+        for exc, where, msg in P.PROBE.take():
+            ck.fail("log-format-%s" % exc, "a log record of %s (%r) cannot be formatted: %s" % (where, msg, exc),
+                    {"position": "formatting of a log record during " + part, "where": where, "message": msg})
     try:
         part_dep_decode(cx)
-        part_dep_protocol(cx)
-        part_gb(cx)
-        part_llc(cx)
-        part_user(cx)
-        part_flow(cx)
-        part_t3(cx)
-        part_snep(cx)
+        # from here on with debug logging as an application would have it: every record is formatted
+        P.enable_logging()
+        for part in (part_dep_protocol, part_gb, part_llc, part_user, part_flow, part_t3, part_snep):
+            part(cx)
+            log_errors(part.__name__)
+        ck.notes.append("%d log records of the code under test formatted (str()/repr() of PDUs, sockets, targets, frames)" % P.PROBE.records)
     finally:
+        P.disable_logging()
         L.uninstall()
     if seen:
         ck.notes.append("failing inputs by kind: " + ", ".join("%s x%d" % kv for kv in sorted(seen.items())))
